@@ -913,9 +913,13 @@ def plan(tier):
 def run_driver(run, name, bounds, jobs, seed):
     t0 = time.time()
     d = run.driver(name, bounds)
-    jobs = rotate(jobs, seed)
-    # cheap jobs first is irrelevant for correctness; keep deterministic order
-    res = pmap(_job, jobs, chunksize=1, ordered=True)
+    # VERIF_SEED rotates the order in which the sub-spaces are explored; results are aggregated in plan order so
+    # that counts and witnesses do not depend on it
+    order = rotate(list(range(len(jobs))), seed)
+    res_rot = pmap(_job, [jobs[i] for i in order], chunksize=1, ordered=True)
+    res = [None] * len(jobs)
+    for i, st in zip(order, res_rot):
+        res[i] = st
     agg = {"horizon": 0, "unacked": 0, "pre_ae_div": 0, "premise_unmet": 0, "cpu": 0.0}
     viol = {}
     bounded = 0
@@ -934,9 +938,13 @@ def run_driver(run, name, bounds, jobs, seed):
             viol[fp][2] += cnt
         if len(d.samples) < 3 and st["samples"]:
             d.samples.append(st["samples"][0])
-    # report the smallest witness per fingerprint independent of the rotation
+    # first witness per fingerprint in plan order (simplest inputs first)
     for fp in sorted(viol):
         desc, rep, cnt = viol[fp]
+        # re-run the witness from its replay data (no explorer) before reporting it
+        _w, _r, again = execute(rep["scheme"], rep["cfg"], rep["input"], Chooser(prefix=rep["choices"]))
+        if fp not in [f for (f, _d) in again]:
+            raise RuntimeError(f"C17 harness: witness of {fp} does not reproduce from its replay data: {rep}")
         for _ in range(cnt):
             run.violation(fp, desc, rep)
     d.outcomes = d.states
